@@ -126,7 +126,7 @@ func (l *Lexer) nextInsideToken() token.Token {
 		}
 		tok = l.newToken(token.ILLEGAL)
 	case '<':
-		if l.peekChar() == '%' {
+		if l.peekChar() == '%' && !l.inComment {
 			l.inside = true
 			l.readChar()
 			switch l.peekChar() {
